@@ -120,10 +120,9 @@ class Mirror:
         """does the operation hit a recorded defect of the pinned tree?"""
         k = op["k"]
         if k in ("close", "rename") and not self.is_open(op["h"]):
-            old = self.names[op["h"]]
-            if k == "close":
-                return old in self.reg
-            return op["new"] != old and (old in self.reg or (op["ro"] and op["new"] in self.reg))
+            # finding stale_handle is repaired in /repo (ddd7fb8): operations through the handle of a closed
+            # model are generated with another model registered under its last name
+            return False
         if k == "read":
             return op["slot"] not in self.files
         if k in ("write", "edit") and not self.is_open(op["h"]):
@@ -148,7 +147,7 @@ class Mirror:
             elif k == "close":
                 h = op["h"]
                 if not self.is_open(h):
-                    return 2
+                    return 0          # closing a model that is no longer registered is a no-op (/repo ddd7fb8)
                 del self.reg[self.names[h]]
                 if self.cur == h:
                     self.cur = None
